@@ -22,7 +22,7 @@ from ..anf import Rat, sym
 from ..guards import (G, TRUE, FALSE, g_and, g_not, g_or, g_equiv, g_implies, g_sat, compare, canon_sign, OPS)
 from ..gvn import Frame, Obj, PW, Vec, cases_of, veq, mk_pw, Unsupported
 from ..intervals import single_atom
-from ..seqdom import Gen, flatten, seq_equiv, var_symbol
+from ..seqdom import Gen, flatten, seq_equiv, var_symbol, mk_gen
 from .common import RuleCtx, _short
 
 C = Rat.const
@@ -56,7 +56,7 @@ def _inner(depth: int, pts, tx, l: Rat, r: Rat, guard: G = TRUE) -> Gen:
     k = anf.opaque("ceil", pdx / (C(2) * tx), array=False)
     inc = anf.opaque("int", (r - l) / k, array=False)
     j = var_symbol(depth)
-    return Gen(depth, C(0), k, C(1), [(guard, l + inc * (j + C(1)), False)])
+    return mk_gen(depth, C(0), k, C(1), [(guard, l + inc * (j + C(1)), False)])
 
 
 def _index_pool(g: G, px: Rat) -> list:
@@ -74,7 +74,11 @@ def _index_pool(g: G, px: Rat) -> list:
             for y in x.a:
                 walk(y)
     walk(g)
-    return list(pool.values())
+    out = []
+    for I in pool.values():
+        c = I.is_const()
+        out.append(sym("n") + C(c) if (c is not None and c < 0) else I)       # positions counted from the end: the index itself is n - k
+    return out
 
 
 def _segments_of(items, what: str):
@@ -301,7 +305,7 @@ def _even(rc: RuleCtx):
         prx = anf.opaque("take", pts.items[0], reduced, array=True)
         pry = anf.opaque("take", pts.items[1], reduced, array=True)
         want_g = _cand_guard(pts, i0 - C(1), i0, tx, ty, px=prx, py=pry)
-        want_c = Vec(flatten([Gen(0, C(1), sym("R"), C(1), [(want_g, i0 - C(1), False), (want_g, i0, False)])]), "list")
+        want_c = Vec(flatten([mk_gen(0, C(1), sym("R"), C(1), [(want_g, i0 - C(1), False), (want_g, i0, False)])]), "list")
         if seq_equiv(Vec(flatten(cands.items), "list"), want_c):
             res.ok("A1", "postprocessing.add_points_even", "every consecutive retained pair (i-1, i) is a candidate iff width > 2*tx and height > ty (normalised by the full ranges)")
         else:
@@ -343,7 +347,7 @@ def _even_knees(rc: RuleCtx):
         segs = _segments_of(flatten(new.items), fi.qualname)
         i0 = var_symbol(0)
         want = [(None, C(0), _at(knees, C(0)), 0, "head gap (0, knees[0])"),
-                ((C(1), sym("K"), C(1)), _at(knees, i0 - C(1)), _at(knees, i0), 1, "gaps between consecutive knees"),
+                ((C(0), sym("K") - C(1), C(1)), _at(knees, i0), _at(knees, i0 + C(1)), 1, "gaps between consecutive knees"),
                 (None, _at(knees, C(-1)), n - C(1), 0, "tail gap (knees[-1], len(points)-1)")]
         shape = [s[0] is not None for s in segs]
         if shape != [False, True, False]:
@@ -356,7 +360,7 @@ def _even_knees(rc: RuleCtx):
             if wrng is not None and not (rng[0].equals(wrng[0]) and rng[1].equals(wrng[1]) and rng[2].equals(wrng[2])):
                 all_ok = False
                 res.violation("A6", fi.module, fi.name, fi.node, "the gaps between consecutive knees (k_{j-1}, k_j) are not all examined",
-                              f"j in [{rng[0]}, {rng[1]}) step {rng[2]}", "j in [1, len(knees))", construct="middle gaps")
+                              f"{rng[1]} gaps (step {rng[2]})", "len(knees) - 1 gaps", construct="middle gaps")
                 continue
             if not _judge_segment(rc, fi, what, pts, tx, ty, guard, inner, depth, l, r):
                 all_ok = False
